@@ -1000,8 +1000,89 @@ def rand_vars(rng, lo=1, hi=3):
     return rng.sample([1, 2, 3, 4, 5, 6], rng.randint(lo, hi))
 
 
+class _Screened(list):
+    """List of factor programs that only accepts programs whose integers stay inside the overflow guard."""
+
+    def append(self, case):
+        if magnitudes_ok(case):
+            super().append(case)
+        else:
+            _DROPPED[0] += 1
+
+
+INT_LIM = 2 ** 30 - 1          # Num!Safe's overflow guard (TLC integers are 32-bit)
+_DROPPED = [0]
+
+
+def magnitudes_ok(case):
+    """Exact integer simulation of the spec's table representation (numerators w, denominator den): every product
+    that the operators of FactorTable.tla / C18_Factor.tla or their invariants form for this program stays below the
+    overflow guard.  Programs that do not are re-drawn (and counted): an overflow is a machinery failure, never a verdict."""
+    big = [0]
+
+    def see(*xs):
+        for x in xs:
+            big[0] = max(big[0], abs(x))
+
+    stack = []
+    for ins in case["prog"]:
+        op = ins["op"]
+        if op == "load":
+            t = case["tabs"][ins["k"] - 1]
+            stack.append(({tuple(sorted(zip(t["vars"], r["vals"]))): r["w"] for r in t["rows"]}, t["den"]))
+        elif op in ("scale", "div"):
+            fn, den = stack.pop()
+            a, b = (ins["n"], ins["d"]) if op == "scale" else (ins["d"], ins["n"])
+            fn = {k: w * a for k, w in fn.items()}
+            den *= b
+            see(den, *fn.values())
+            stack.append((fn, den))
+        elif op == "and":
+            (f2, d2), (f1, d1) = stack.pop(), stack.pop()
+            out = {}
+            for k1, w1 in f1.items():
+                for k2, w2 in f2.items():
+                    a, b = dict(k1), dict(k2)
+                    if all(a[v] == b[v] for v in a if v in b):
+                        a.update(b)
+                        out[tuple(sorted(a.items()))] = w1 * w2
+            t1, t2 = sum(f1.values()), sum(f2.values())
+            # JoinLaw / IndependentProduct: w1*w2, Total1*Total2, w1*Total2; den1*den2
+            see(d1 * d2, t1 * t2, max(f1.values(), default=0) * max(t2, max(f2.values(), default=0)), sum(out.values()))
+            stack.append((out, d1 * d2 if out else 1))
+        elif op == "or":
+            (f2, d2), (f1, d1) = stack.pop(), stack.pop()
+            if not f1:
+                stack.append((f2, d2))
+            elif not f2:
+                stack.append((f1, d1))
+            else:
+                out = {k: f1.get(k, 0) * d2 + f2.get(k, 0) * d1 for k in list(f1) + [k for k in f2 if k not in f1]}
+                mw = max(out.values(), default=0)
+                # MixWeight, and MixLaw's cross products WOf(x)*den1*den2 and MixWeight*x.den
+                see(d1 * d2, mw, mw * d1 * d2, sum(out.values()),
+                    max(f1.values(), default=0) * d2, max(f2.values(), default=0) * d1)
+                stack.append(({k: w for k, w in out.items() if w > 0}, d1 * d2))
+        elif op == "marg":
+            fn, den = stack.pop()
+            out = {}
+            for k, w in fn.items():
+                kk = tuple(sorted((v, x) for v, x in k if v in ins["keep"]))
+                out[kk] = out.get(kk, 0) + w
+            see(sum(out.values()))
+            stack.append((out, den))
+        elif op == "norm":
+            fn, den = stack.pop()
+            tot = sum(fn.values())
+            see(tot)
+            stack.append((fn, tot if tot > 0 else den))
+        if big[0] > INT_LIM:
+            return False
+    return True
+
+
 def make_factor_cases(rng, n):
-    cases = []
+    cases = _Screened()
     while len(cases) < n:
         kind = rng.choice(["and", "and", "and3", "or", "or", "or3", "fence", "andmarg", "indep",
                            "xand", "xand", "xchain", "xscale", "xor", "xmarg", "scalemarg", "fencemarg", "and3marg",
@@ -1556,6 +1637,7 @@ def start_factor(ctx):
     rng = random.Random(ctx.seed * 2003 + 181)
     n = 1000 if ctx.tier == "quick" else 8000
     cases = make_factor_cases(rng, n)
+    ctx.count("factor_programs_redrawn_because_of_the_32bit_overflow_guard", _DROPPED[0])
     chunks = [cases[k:k + 2000] for k in range(0, len(cases), 2000)]
     futs = [_POOL.submit(factor_batch_tlc, ctx, ch, str(i)) for i, ch in enumerate(chunks)]
     exh = {"small": _POOL.submit(factor_exh_tlc, ctx, "small")}
